@@ -34,6 +34,30 @@ Theorem C18_stmt_line_in_block : forall exec line s tl st last,
 Proof. exact block_go_sets_line. Qed.
 Print Assumptions C18_stmt_line_in_block.
 
+(* 每当: the condition is evaluated at the line of the loop statement on EVERY pass, also after the statements of the
+   body have moved the frame's line (repaired: the pinned code reported a fault of a later pass at the last body line) *)
+Theorem C18_while_condition_line : forall ev body c l j st, stack st <> [] ->
+  top_line (set_line st l) = l /\
+  while_loop ev body c l (S j) st =
+    (let! (cv, s1) := ev (set_line st l) c in
+     match cv with
+     | VBool true =>
+       match after_pass (body s1) with
+       | (Some r, _) => r
+       | (None, Some s2) => while_loop ev body c l j s2
+       | (None, None) => Crash 8
+       end
+     | VBool false => Ok VNull s1
+     | _ => Er (ERun E_EXPRTYPE) s1
+     end).
+Proof. exact while_condition_line. Qed.
+Print Assumptions C18_while_condition_line.
+
+Theorem C18_while_uses_statement_line : forall ev k st c body,
+  exec_stmt ev (S k) st (SWhile c body) = while_loop ev (fun s1 => exec_block ev k s1 body) c (cur_line st) k st.
+Proof. exact exec_while_uses_statement_line. Qed.
+Print Assumptions C18_while_uses_statement_line.
+
 (* the frames of callers keep the line of their pending call while a callee runs *)
 Theorem C18_caller_lines_kept : forall st l f tl, stack st = f :: tl ->
   exists f', stack (set_line st l) = f' :: tl /\ f_line f' = l /\ frame_sim f' f.
